@@ -505,6 +505,23 @@ func GenChain(o GenOpts, maxLen int) *rapid.Generator[[]Step] {
 	})
 }
 
+// GenDeepChain draws a derivation chain that opens many groups: 15..64 WithGroup calls with short names, a With here
+// and there. Depth is an input like any other (per-request, per-component, per-retry loggers nest).
+func GenDeepChain(o GenOpts) *rapid.Generator[[]Step] {
+	return rapid.Custom(func(t *rapid.T) []Step {
+		n := rapid.SampledFrom([]int{15, 16, 17, 31, 32, 33, 64}).Draw(t, "depth")
+		withEvery := rapid.SampledFrom([]int{0, 0, 5, 9}).Draw(t, "withEvery")
+		out := make([]Step, 0, n+8)
+		for i := 0; i < n; i++ {
+			out = append(out, Step{Group: fmt.Sprintf("g%d", i)})
+			if withEvery > 0 && i%withEvery == withEvery-1 {
+				out = append(out, Step{With: []Node{GenNode(o, 1).Draw(t, "withattr")}})
+			}
+		}
+		return out
+	})
+}
+
 var Levels = []slog.Level{logger.LevelDebug, logger.LevelInfo, logger.LevelWarn, logger.LevelError, logger.LevelFatal}
 var LevelNames = map[slog.Level]string{logger.LevelDebug: "DEBUG", logger.LevelInfo: "INFO", logger.LevelWarn: "WARN", logger.LevelError: "ERROR", logger.LevelFatal: "FATAL"}
 
